@@ -17,7 +17,7 @@ CONFIG = {
                       "and (nil,-1) for any declared length beyond the input. The model is tied to the Go code by running both on "
                       "the same operations (1e5 quick / 2e6 thorough) and by direct oracles incl. every v < 2^30 (thorough).",
         "level_note": "Two ties, both checked on every run. (1) Translation: /verif/extract/cmd/quicwire translates quicwire/wire.go "
-                      "(go/ast + go/types; shifts, ors, index and slice expressions as written, partial operations in a Res monad) into "
+                      "(go/ast + go/constant; shifts, ors, index and slice expressions as written, partial operations in a Res monad) into "
                       "lean/PatVerif/Generated/Quicwire.lean; Proofs/QuicwireRefine.lean proves each of the 11 translated functions equal "
                       "to the model's, and Props/C19Gen.lean restates the clauses of C19 about the translated functions. A change of "
                       "wire.go outside the translated subset, or one that breaks a refinement proof, is a broken obligation. "
